@@ -5,6 +5,7 @@ package tasksim
 import (
 	"fmt"
 	"math/rand"
+	"testing/synctest"
 	"time"
 
 	"github.com/Fantom-foundation/lachesis-base/gossip/itemsfetcher"
@@ -33,8 +34,9 @@ func RunFetcher(c *sim.Ctx) {
 	slowPeer := knob("slow_peer", -1, nPeers-1)
 	seed := int64(knob("schedule_seed", 1, 1<<30))
 	interestIgnoresReceipt := knob("interest_ignores_receipt", 0, 1) == 1 // application variant: OnlyInterested keeps naming received items; the receipt report alone must stop the requests
+	trafficBursts := knob("traffic_bursts", 0, 3) == 0                    // some stimuli are long streams of announcements of other items
 	nOps := knob("ops", 1, 24)
-	c.ProbeDecl("announced_while_suspended", "item_requested", "item_re_requested_after_timeout", "item_received", "interest_lost", "item_forgotten_by_age", "announce_by_second_peer", "interest_regained_without_announcement", "received_while_announced_under_suspension")
+	c.ProbeDecl("announced_while_suspended", "item_requested", "item_re_requested_after_timeout", "item_received", "interest_lost", "item_forgotten_by_age", "announce_by_second_peer", "interest_regained_without_announcement", "received_while_announced_under_suspension", "traffic_burst")
 
 	var plan []stim
 	at := time.Duration(0)
@@ -44,6 +46,10 @@ func RunFetcher(c *sim.Ctx) {
 		}
 		gap := time.Duration(c.Int("gap_ms", 0, int(3*arrive/time.Millisecond))) * time.Millisecond
 		at = uniqueAt(at, gap, len(c.Trace.Ops))
+		if trafficBursts && c.Chance("traffic_burst", 120) {
+			// a steady stream of announcements of fresh items (peer, how many) with gaps of a tenth of the arrive timeout
+			return sim.Op{K: "traffic", A: []int64{int64(at), int64(c.Pick("peer", nPeers)), int64(40 + c.Pick("more", 30))}}, true
+		}
 		switch c.PickW("op", []int{10, 4, 2, 3, 3, 2}) {
 		case 0:
 			a := []int64{int64(at), int64(c.Pick("peer", nPeers))}
@@ -84,7 +90,7 @@ func RunFetcher(c *sim.Ctx) {
 		rand.Seed(seed)
 		start := time.Now()
 		now := func() time.Duration { return time.Since(start) }
-		cfg := itemsfetcher.Config{ForgetTimeout: forget, ArriveTimeout: arrive, GatherSlack: arrive / 10, HashLimit: 32 * 4 * nItems,
+		cfg := itemsfetcher.Config{ForgetTimeout: forget, ArriveTimeout: arrive, GatherSlack: arrive / 10, HashLimit: 32 * 4 * (nItems + 100*b2i(trafficBursts)),
 			MaxBatch: maxBatch, MaxParallelRequests: parallel, MaxQueuedBatches: 16}
 		interested := make([]bool, nItems)
 		received := make([]bool, nItems)
@@ -102,6 +108,9 @@ func RunFetcher(c *sim.Ctx) {
 		lastResume := time.Duration(0)
 		announcedSuspended := make([]bool, nItems)
 		var reqs []fetchReq
+		trafficFrom := map[int]int{} // traffic item -> announcing peer
+		var trafficAnswered []interface{}
+		nextTraffic := 1000
 		for i := range announcedBy {
 			announcedBy[i] = map[int]time.Duration{}
 			lastAnnounce[i], settledAt[i], firstAnnounce[i] = -1, -1, -1
@@ -114,6 +123,10 @@ func RunFetcher(c *sim.Ctx) {
 				var r []interface{}
 				for _, id := range ids {
 					i := id.(int)
+					if i >= 1000 { // traffic items: always wanted, never tracked
+						r = append(r, id)
+						continue
+					}
 					if interested[i] && (!received[i] || interestIgnoresReceipt) {
 						r = append(r, id)
 						reportedInteresting[i] = true
@@ -132,6 +145,13 @@ func RunFetcher(c *sim.Ctx) {
 				ml.mu.Lock()
 				for _, id := range ids {
 					i := id.(int)
+					if i >= 1000 {
+						if trafficFrom[i] != peer {
+							rec.violation("fetch-provenance", "fetch-provenance/peer-did-not-announce", "t=%v: item %d requested from peer p%d, it was announced by p%d only", t, i, peer, trafficFrom[i])
+						}
+						trafficAnswered = append(trafficAnswered, id) // the peer answers at once: reported received by the driver
+						continue
+					}
 					reqs = append(reqs, fetchReq{t, peer, i})
 					probes.inc("item_requested")
 					if _, ok := announcedBy[i][peer]; !ok {
@@ -227,6 +247,26 @@ func RunFetcher(c *sim.Ctx) {
 				}
 				ml.mu.Unlock()
 				_ = f.NotifyAnnounces(fmt.Sprintf("p%d", peer), ids, time.Now(), fetchFn(peer))
+			case "traffic":
+				peer, k := int(s.op.A[1])%nPeers, int(s.op.A[2])
+				probes.inc("traffic_burst")
+				for j := 0; j < k && !rec.failed(); j++ {
+					id := 0
+					ml.do(func() {
+						id = nextTraffic
+						nextTraffic++
+						trafficFrom[id] = peer
+					})
+					_ = f.NotifyAnnounces(fmt.Sprintf("p%d", peer), []interface{}{id}, time.Now(), fetchFn(peer))
+					time.Sleep(arrive / 10)
+					synctest.Wait()
+					var got []interface{}
+					ml.do(func() { got, trafficAnswered = trafficAnswered, nil })
+					if len(got) > 0 {
+						_ = f.NotifyReceived(got)
+					}
+					checkLiveness(now())
+				}
 			case "received":
 				i := int(s.op.A[1]) % nItems
 				ml.do(func() {
@@ -306,4 +346,11 @@ func RunFetcher(c *sim.Ctx) {
 		c.MarkNontrivial()
 	}
 	c.State(sim.Mix(uint64(len(plan)), uint64(nItems), uint64(nPeers)))
+}
+
+func b2i(b bool) int {
+	if b {
+		return 1
+	}
+	return 0
 }
